@@ -4,7 +4,7 @@
    the API calls; all schedules = all label sequences; repaired code, fixes/C17.patch).
    Specification: spec/SeederSpec.v. *)
 From Coq Require Import NArith List Bool.
-From LV Require Import model.Seeder spec.SeederSpec proofs.SeederProofs.
+From LV Require Import model.Seeder spec.SeederSpec proofs.SeederProofs proofs.SeederQueues.
 Import ListNotations.
 Local Open Scope N_scope.
 
@@ -16,4 +16,23 @@ Theorem C17_limits : forall v cfg db ops r,
   limits_ok (r_num (rs_req r)) (r_size (rs_req r)) (rs_items r) = true.
 Proof. exact sent_limits. Qed.
 
+(* Pending memory: in every reachable state (every schedule, both code variants) the counter
+   equals the memory of the responses enqueued and not yet sent, and exceeds the configured
+   limit by less than the memory of one of those responses. *)
+Theorem C17_pending_bound : forall v cfg db ops,
+  let st := fst (run v cfg db (init cfg) ops) in
+  st_pending st = mem_sum cfg (concat (st_senders st)) /\
+  (st_pending st = 0 \/
+   exists r, In r (concat (st_senders st)) /\ st_pending st < c_limit cfg + resp_mem cfg r).
+Proof. exact pending_bounded. Qed.
+
+(* Per-incarnation FIFO: whatever the sender workers' schedule, the responses of an incarnation
+   that have been sent are an initial segment of those the reader produced, in that order. *)
+Theorem C17_fifo : forall v cfg db ops k,
+  let tr := snd (run v cfg db (init cfg) ops) in
+  exists rest, sel k (enqs tr) = sel k (sents tr) ++ rest.
+Proof. exact fifo_per_incarnation. Qed.
+
 Print Assumptions C17_limits.
+Print Assumptions C17_pending_bound.
+Print Assumptions C17_fifo.
